@@ -68,6 +68,20 @@ def run(chk):
         chk.ob("R05.7", DP, "PromoleculeDensity.from_xyz_file", "the atomic numbers are those of the file's elements in file order",
                f"{src}[0][_it].atomic_number" in ek and f"(iter {src}[0] ())" in ek and "sorted" not in ek and "unique" not in ek,
                fingerprint="xyz-ctor:elements", found=ek[:200])
+        if "StockholderWeight.from_xyz_files" in dp.funcs:
+            # the pair constructor: interior from the first file, exterior from the second (a copy-paste slip reads one file twice)
+            fv = dp.ev("StockholderWeight.from_xyz_files")
+            chk.saw(DP, "StockholderWeight.from_xyz_files")
+            f1, f2 = fv.param_names[1], fv.param_names[2]
+            okp, foundp = bool(fv.returns), None
+            for r_ in fv.returns:
+                a_ = r_.value.as_atom() if r_.value is not None else None
+                args_ = a_[2] if a_ and a_[0] == "call" else ()
+                good = len(args_) >= 2 and args_[0].key().endswith(f".from_xyz_file({f1})") and args_[1].key().endswith(f".from_xyz_file({f2})")
+                if not good:
+                    okp, foundp = False, foundp or str(r_.value)[:160]
+            chk.ob("R05.7", DP, "StockholderWeight.from_xyz_files", "the interior density is read from the first file and the exterior density from the second",
+                   okp, fingerprint="xyz-pair", expected=f"cls(from_xyz_file({f1}), from_xyz_file({f2}))", found=foundp)
     if chk.tier == "thorough" and chk.want("T05"):
         t05(chk, repo)
     chk.assume("float32 rounding, the numerical agreement with the tabulated densities and values within 0.3 A of a nucleus are not decided")
